@@ -233,11 +233,44 @@ def split_tree(rnd):
     return els
 
 
+def pattern_trees():
+    """Enumerated (not random) trees: a Split whose first branch has an unresolved formatting key -
+    directly or inside a nested sequence (depth 4) - next to a sibling branch with one consumer.
+    The sibling is not enclosed by the failing branch: it must still receive the outer context."""
+    out = []
+    consumers = [None, ("store", NOTPL), ("ucfs", NOTPL), ("mfd", _fmt(_fld(["ka"]))),
+                 ("write", _fmt(_fld(["ka"]))), ("cache", _fmt(_fld(["ka"]), _lit(".pkl")))]
+    for outer in ("seq", "src"):
+        for b1kind in ("seq", "src"):
+            for nested in (False, True):
+                for cons in consumers:
+                    for b2kind in ("seq", "src"):
+                        els = []
+
+                        def add(k, ch=(), p=(), v=NOTPL):
+                            els.append({"k": k, "p": list(p), "v": v, "ch": list(ch)})
+                            return len(els)
+                        first = add("set", p=["ka"], v={"t": "int", "toks": [_lit("1")]})
+                        f = add("set", p=["kb"], v=_fmt(_fld(["kd", "ke"])))
+                        inner = add("seq", [f]) if nested else f
+                        b1 = add(b1kind, [inner])
+                        ch2 = [add(cons[0], v=cons[1])] if cons else []
+                        b2 = add(b2kind, ch2)
+                        sp = add("split", [b1, b2])
+                        add(outer, [first, sp])
+                        out.append(els)
+    return out
+
+
 def c2s(ctx, n, max_tok, stats):
     rnd = random.Random(ctx.seed * 7919 + 13)
     trace = []
-    for j in range(n):
-        els = split_tree(rnd) if j % 3 == 2 else random_tree(rnd, max_tok)
+    patterns = pattern_trees()
+    for j in range(n + len(patterns)):
+        if j >= n:
+            els = patterns[j - n]
+        else:
+            els = split_tree(rnd) if j % 3 == 2 else random_tree(rnd, max_tok)
         tuples = bool(rnd.getrandbits(1))
         try:
             objs = sl.build(els, tuples)
@@ -315,6 +348,16 @@ def demo_defect_models(ctx):
             "%s: TLC violates SeenIsExpected after %d states" % (what, res.distinct))
 
 
+def demo_abort(ctx):
+    """SplitContinues = FALSE (LenaSplit._set_context is left when a branch raises): the sibling
+    branches after it miss the outer context - SeenIsExpected is violated at depth 4."""
+    res = ctx.mc("StaticContext", "StaticContext_abort.cfg", expect_violation="report")
+    if res.exit == 0 or res.violated != "SeenIsExpected":
+        raise core.MachineryError("defect model StaticContext_abort.cfg does not violate SeenIsExpected")
+    ctx.extra.setdefault("design_level_counterexamples", []).append(
+        "SplitContinues=FALSE: TLC violates SeenIsExpected after %d states" % res.distinct)
+
+
 def run(ctx):
     # private scratch directory: a concurrent invocation of the same check must not wipe ours
     # (core.Ctx makes one itself now; only an old shared build/<ID> is replaced)
@@ -373,6 +416,7 @@ def _run(ctx):
             lambda: demo_defect_models(ctx)]
     if ctx.thorough:
         jobs.append(lambda: ctx.mc("StaticContext", "StaticContext_sim.cfg", simulate=2000, depth=24))
+        jobs.append(lambda: demo_abort(ctx))
     bg = Background(jobs)
     # ---- spec -> code (main thread)
     cwd = os.getcwd()
